@@ -36,7 +36,9 @@ def main(argv):
     # fixed valid shapes the random generator rarely produces: names containing one another or differing only in case around the
     # multi-client settings, shadowed externs, twelve ports, semantics alternating in declaration order
     from checks import shellrun as SR
-    for c in SR.case_only_cases() + SR.mc_name_containment_cases() + SR.shadowed_extern_cases()[:2] + SR.many_cases() + SR.mixed_semantics_cases(('MSM',)) + SR.prefix_name_cases()[:2]:
+    clash = SR.mixed_semantics_cases(('SM',))[0]
+    clash = {'file': clash['file'], 'cfg': dict(clash['cfg'], file='models/Dzn_I.dzn', suffix='Log')}     # shell `Dzn_ILog`, like the ILog support file
+    for c in [clash] + SR.case_only_cases() + SR.mc_name_containment_cases() + SR.shadowed_extern_cases()[:2] + SR.many_cases() + SR.mixed_semantics_cases(('MSM',)) + SR.prefix_name_cases()[:2]:
         cases.append(c)
         labels.append('valid')
     io, mo = BC.run_builds(cases, timeout=3000, twice=True)
